@@ -471,17 +471,44 @@ func TestRemoteFlows(t *testing.T) {
 // ---- unreachable episodes ----------------------------------------------------------------
 
 type UCase struct {
-	K int `json:"k"` // messages sent while nobody listens
-	N int `json:"n"` // episode number (distinguishes otherwise equal cases)
+	K   int  `json:"k"`             // messages sent while nobody listens
+	N   int  `json:"n"`             // episode number (distinguishes otherwise equal cases)
+	TLS bool `json:"tls,omitempty"` // both nodes are configured WithTLS: the failing dial is tls.Dial
+	// Group: the episodes of one run (they run side by side).  Journaled before they start: a process
+	// that does not survive an unreachable peer publishes nothing, and the group is the reproduction.
+	Group []UCase `json:"group,omitempty"`
 }
 
 type sentinel struct{ N int }
 
 func runEpisode(c UCase) error {
+	if len(c.Group) > 0 {
+		errs := make([]error, len(c.Group))
+		var wg sync.WaitGroup
+		for i, g := range c.Group {
+			if len(g.Group) > 0 {
+				return nil
+			}
+			wg.Add(1)
+			go func(i int, g UCase) { defer wg.Done(); errs[i] = runEpisode(g) }(i, g)
+		}
+		wg.Wait()
+		for _, err := range errs {
+			if err != nil && !errors.Is(err, errInconclusive) {
+				return err
+			}
+		}
+		for _, err := range errs {
+			if err != nil {
+				return err
+			}
+		}
+		return nil
+	}
 	if c.K < 1 || c.K > 50 {
 		return nil
 	}
-	a, ra, _, err := node("")
+	a, ra, _, err := nodeCfg("", c.TLS)
 	if err != nil {
 		return err
 	}
@@ -497,6 +524,7 @@ func runEpisode(c UCase) error {
 		unreach int
 		dls     int
 		sents   int
+		crashed string // the router or a stream writer was restarted / gave up: the attempt ended in a crash
 	)
 	mon := a.SpawnFunc(func(ctx *actor.Context) {
 		mu.Lock()
@@ -512,6 +540,10 @@ func runEpisode(c UCase) error {
 			}
 		case sentinel:
 			sents = ev.N
+		case actor.ActorRestartedEvent:
+			if ev.PID != nil && (ev.PID.ID == "router" || strings.HasPrefix(ev.PID.ID, "stream/")) && crashed == "" {
+				crashed = fmt.Sprintf("%s was restarted after: %v", ev.PID.ID, ev.Reason)
+			}
 		}
 		cond.Broadcast()
 	}, "monitor")
@@ -534,12 +566,20 @@ func runEpisode(c UCase) error {
 	for i := 0; i < c.K; i++ {
 		a.Send(tpid, &remote.TestMessage{Data: []byte(fmt.Sprintf("0:%d:msg", i))})
 	}
-	if !waitFor(wait, func() bool { return unreach >= 1 }) {
+	if !waitFor(wait, func() bool { return unreach >= 1 || crashed != "" }) {
 		return fmt.Errorf("%w: no RemoteUnreachableEvent for %s", errInconclusive, dead)
+	}
+	mu.Lock()
+	cr, un := crashed, unreach
+	mu.Unlock()
+	if un == 0 && cr != "" {
+		// the router runs the connection attempt inside its own Receive (it starts the stream writer,
+		// which dials): a restart of the router is the end of that attempt - no event will follow
+		return fmt.Errorf("the connection attempt to the unreachable %s (tls=%v) ended in a crash instead of a RemoteUnreachableEvent: %s", dead, c.TLS, cr)
 	}
 	// the peer comes up on that address; a later send must make a fresh, successful attempt
 	release()
-	b, rb, _, err := node(dead)
+	b, rb, _, err := nodeCfg(dead, c.TLS)
 	if err != nil {
 		return err
 	}
@@ -599,7 +639,10 @@ func TestUnreachable(t *testing.T) {
 	for i := 0; i < n; i++ {
 		// K is a pure function of the seed and the episode number (no generator library here:
 		// the episodes run in parallel because each sleeps 3 s inside the stream writer)
-		cases[i] = UCase{K: 1 + int((uint64(seed)*2654435761+uint64(i)*40503)%12), N: i}
+		cases[i] = UCase{K: 1 + int((uint64(seed)*2654435761+uint64(i)*40503)%12), N: i, TLS: i%3 == 1}
+	}
+	st.Begin(UCase{Group: cases})
+	for i := 0; i < n; i++ {
 		wg.Add(1)
 		go func(i int) { defer wg.Done(); errs[i] = runEpisode(cases[i]) }(i)
 	}
@@ -612,7 +655,11 @@ func TestUnreachable(t *testing.T) {
 			st.Fail(cases[i], err)
 			t.Fatalf("%v", err)
 		}
-		st.Done(cases[i], true, "unreachable-episode")
+		if cases[i].TLS {
+			st.Done(cases[i], true, "unreachable-episode", "tls-dial-fails")
+		} else {
+			st.Done(cases[i], true, "unreachable-episode")
+		}
 	}
 }
 
